@@ -33,10 +33,11 @@ func generateEndpointAnalysisDiagramHelper(m *sysl.Module,
 		result = mermaid.GeneratedHeader + "graph TD\n"
 	}
 	count := 1
-	for appName, app := range m.Apps {
+	for _, appName := range mermaid.SortedKeys(m.Apps) {
+		endPoints := m.Apps[appName].Endpoints
 		result += fmt.Sprintf(" subgraph %d[\"%s\"]\n", count, appName)
-		for epName, endPoint := range app.Endpoints {
-			statements := endPoint.Stmt
+		for _, epName := range mermaid.SortedKeys(endPoints) {
+			statements := endPoints[epName].Stmt
 			result += printEndpointAnalysisStatements(m, statements, mermaid.CleanString(epName), externalLinks)
 		}
 		result += " end\n"
@@ -58,8 +59,8 @@ func generateMultipleAppEndpointAnalysisDiagramHelper(m *sysl.Module, appNames [
 	for _, appName := range appNames {
 		result += fmt.Sprintf(" subgraph %d[\"%s\"]\n", count, appName)
 		endPoints := m.Apps[appName].Endpoints
-		for epName, endPoint := range endPoints {
-			statements := endPoint.Stmt
+		for _, epName := range mermaid.SortedKeys(endPoints) {
+			statements := endPoints[epName].Stmt
 			result += printEndpointAnalysisStatements(m, statements, mermaid.CleanString(epName), externalLinks)
 		}
 		result += " end\n"
